@@ -29,7 +29,7 @@ def gen_terms(task):
     elif kind == "d3":
         it = depth3_terms(triple, W)
     elif kind == "d2c":
-        return list(G.const_inner_terms(triple[:2], W))
+        return list(G.const_inner_terms(triple[:2], W, full=opts.get("full", True)))
     return [t for t in it if canonical(t, triple, base)]
 
 
@@ -86,10 +86,11 @@ def run(rep):
     for tr in itertools.product(G.shapes(W2), repeat=3):
         tasks.append(("d2", W2, tr, {"inner_rich": not rep.quick, "outer_rich": False}))
     tasks.append(("const", 3, ((0, False),) * 3, {}))
-    for pair in itertools.product(G.shapes(rep.pick(2, 3)), repeat=2):
-        tasks.append(("d2c", 3, pair + ((0, False),), {}))
+    sub = [(0, False), (2, False), (2, True)]      # quick: the chain / constant families over a shape subset that keeps zero width and both signs
+    for pair in itertools.product(sub if rep.quick else G.shapes(3), repeat=2):
+        tasks.append(("d2c", 3, pair + ((0, False),), {"full": not rep.quick}))
     W3 = rep.pick(2, 3)
-    for tr in itertools.product(G.shapes(W3), repeat=3):
+    for tr in itertools.product(sub if rep.quick else G.shapes(W3), repeat=3):
         tasks.append(("d3", W3, tr, {}))
     if not rep.quick:
         for tr in itertools.product(G.shapes(3), repeat=3):
